@@ -15,7 +15,7 @@ def dispatch : String → Option (String → String)
   | "C01" => some (fun l => if l.startsWith "(c01wire" then Wire.runLine l else AbiGen.runLine l)
   | "C02" => some (fun l => if l.startsWith "(c02cpp" then CppMethod.runLine l else CppGen.runLine l)
   | "C03" => some Own.runLine
-  | "C04" => some (fun l => if l.startsWith "(c04nest" then Lifetimes.runNest l else Lifetimes.runLine l)
+  | "C04" => some (fun l => if l.startsWith "(c04nest" then Lifetimes.runNest l else if l.startsWith "(arena" then JsArena.runLine l else Lifetimes.runLine l)
   | "C05" => some Lower.runLine
   | "C06" => some Rename.runLine
   | "C07" => some (fun l => if l.startsWith "(c07kt" then KtNative.runLine l else DartKt.runLine l)
@@ -23,12 +23,12 @@ def dispatch : String → Option (String → String)
   | "C09" => some Idents.runLine
   | "C10" => some JsSlot.runLine
   | "C11" => some EnumGen.runLine
-  | "C12" => some Write.runLine
+  | "C12" => some (fun l => if l.startsWith "(cppstr" then CppStr.runLine l else Write.runLine l)
   | "C17" => some Config.runLine
   | "C13" => some Cfg.runLine
   | "C14" => some EnvOrder.runLine
   | "C15" => some Panics.runLine
-  | "C16" => some (fun l => if l.startsWith "(utf8" || l.startsWith "(mask2" then Utf8.runLine l else Slices.runLine l)
+  | "C16" => some (fun l => if l.startsWith "(utf8" || l.startsWith "(mask2" then Utf8.runLine l else if l.startsWith "(str8" then JsStr.runLine l else Slices.runLine l)
   | _ => none
 
 def main (args : List String) : IO UInt32 := do
